@@ -75,7 +75,7 @@ pub fn run(max_windows: u64, honest: bool) -> WorldOutcome {
         .build()
         .expect("rt");
     let stakes2 = stakes.clone();
-    let (deliveries, hashes, own_votes, own_certs, virt) = rt.block_on(async move {
+    let (deliveries, hashes, own_votes, own_certs, virt, mixed_slots) = rt.block_on(async move {
         kernel::set_t0();
         let stakes = stakes2;
         let vals = keys::validator_infos(&stakes);
@@ -150,6 +150,7 @@ pub fn run(max_windows: u64, honest: bool) -> WorldOutcome {
                 kernel::fault("honest_environment_needs_the_nodes_votes");
             }
         }
+        let mut mixed_slots: BTreeSet<u64> = BTreeSet::new();
         for s in 1..=last_slot {
             let t_s = 300 + 450 * s;
             let leader = ((s / 4) % n as u64) as usize;
@@ -197,6 +198,47 @@ pub fn run(max_windows: u64, honest: bool) -> WorldOutcome {
                 }
                 continue;
             }
+            // honest mode: a *mixed* last slot of a window. Most validators time out and vote skip, then
+            // notar-fallback once the block turns out to be safe to notarize (all legitimate), so the
+            // slot ends up with a skip certificate AND a notar-fallback certificate: the next window has
+            // two ready parents, announced one after the other, and its first block (built on this
+            // slot's block, delivered early) is already waiting when the first of them is announced.
+            let mixed_prev = honest && s % 4 == 0 && mixed_slots.contains(&(s - 1));
+            let mixed = honest
+                && s % 4 == 3
+                && s < last_slot
+                && chain_tip.0 + 1 == s
+                && vote_role.iter().all(|r| *r == 0)
+                && kernel::choose(E, 3) == 1;
+            if mixed {
+                mixed_slots.insert(s);
+                kernel::fault("mixed_slot_skip_and_notar_fallback_certified");
+                let kp = keys::keypair(leader);
+                let pid: BlockId = (Slot::new(chain_tip.0), hashes[&chain_tip].clone());
+                let blk = wire::simple_block(Slot::new(s), pid, 1, 0xC05 + s * 10 + 1, &kp.sk);
+                hashes.insert((s, 1), blk.hash.clone());
+                built.insert((s, 1), blk);
+                blocks_by_slot.entry(s).or_default().push(((s, 1), chain_tip));
+                script.push((t_s + kernel::choose(E, 100), In::Block { b: (s, 1), parent: chain_tip }));
+                chain_tip = (s, 1);
+                // the smallest drawn set of puppets holding >= 60 % skips (and later falls back); the rest notarize
+                let mut order: Vec<usize> = (0..n).filter(|i| *i != real).collect();
+                for i in (1..order.len()).rev() {
+                    let j = i - kernel::choose(E, (i + 1) as u64) as usize;
+                    order.swap(i, j);
+                }
+                let mut skipping = 0u64;
+                for v in order {
+                    if skipping * 5 < total * 3 {
+                        skipping += stakes[v];
+                        script.push((t_s + 300 + kernel::choose(E, 150), In::Vote { v, kind: VK::Skip, slot: s, tag: 0 }));
+                        script.push((t_s + 650 + kernel::choose(E, 150), In::Vote { v, kind: VK::NotarFallback, slot: s, tag: 1 }));
+                    } else {
+                        script.push((t_s + 50 + kernel::choose(E, 200), In::Vote { v, kind: VK::Notar, slot: s, tag: 1 }));
+                    }
+                }
+                continue;
+            }
             if calm {
                 let kp = keys::keypair(leader);
                 let pid: BlockId = (Slot::new(chain_tip.0), hashes[&chain_tip].clone());
@@ -211,7 +253,7 @@ pub fn run(max_windows: u64, honest: bool) -> WorldOutcome {
                 // vote there, therefore none in the next slot either, and ends up skipping - a lagging
                 // node's legitimate behaviour, not the environment this oracle is about.
                 let needed = vote_role.iter().any(|r| *r != 0);
-                let (early, late) = match if honest { kernel::choose(E, 3) } else { 0 } {
+                let (early, late) = match if mixed_prev { 1 } else if honest { kernel::choose(E, 3) } else { 0 } {
                     1 => (150 + kernel::choose(E, 150), 0),
                     // (not in a window's first slot: a block later than DELTA_TIMEOUT after the ready
                     // parent legitimately triggers the crashed-leader timeout)
@@ -495,7 +537,7 @@ pub fn run(max_windows: u64, honest: bool) -> WorldOutcome {
                 deliveries.push(Delivery { at_ms: at, what: In::Block { b: *b, parent } });
             }
         }
-        (deliveries, hashes, own_votes, own_certs, kernel::now_ms())
+        (deliveries, hashes, own_votes, own_certs, kernel::now_ms(), mixed_slots)
     });
     drop(rt);
     let last_slot = windows * 4 + 3;
@@ -722,7 +764,10 @@ pub fn run(max_windows: u64, honest: bool) -> WorldOutcome {
             let describe = || {
                 own_votes.iter().filter(|v| v.3 + 1 >= slot && v.3 <= slot + 1).map(|(at, _, k, sl, _)| format!("{at}ms {k:?} s{sl}")).collect::<Vec<_>>().join(", ")
             };
-            if st.skip || st.sf || !st.nf.is_empty() {
+            // in a mixed slot (skip- and notar-fallback-certified by the others) the node, having
+            // notarized, legitimately casts skip-fallback once safe-to-skip holds, and then no final vote
+            let is_mixed = mixed_slots.contains(&slot);
+            if st.skip || (st.sf && !is_mixed) || !st.nf.is_empty() {
                 kernel::violation(
                     "C02",
                     "node-local:skipped-a-correct-leaders-block",
@@ -785,7 +830,7 @@ pub fn run(max_windows: u64, honest: bool) -> WorldOutcome {
                 );
                 break;
             }
-            if !st.fin {
+            if !st.fin && !is_mixed {
                 let t_notar = own_votes.iter().find(|v| v.3 == slot && v.2 == VK::Notar).map_or(t_can, |v| v.0);
                 // the notarization certificate forms from the others' votes, all delivered within 750 ms of the slot's nominal time
                 if !finalized_by(t_notar.max(t_block) + 1_500) {
